@@ -77,8 +77,8 @@ def run(ctx):
                 'resets; operations before the first reset; actions outside the action space) on all shipped configurations and random compositions, '
                 'debug flag on and off; non-trivial = sequence with at least one observation read and one step')
     shipped = envs.shipped_envs()
-    n_rand = 25 if ctx.tier == 'quick' else 250
-    per = 2 if ctx.tier == 'quick' else 12
+    n_rand = 80 if ctx.tier == 'quick' else 400
+    per = 5 if ctx.tier == 'quick' else 16
     length = 25 if ctx.tier == 'quick' else 60
     jobs = []
     for name, data, desc in shipped:
@@ -112,6 +112,9 @@ def run(ctx):
                  {'env': label, 'ops': [f'{k}:{a}' if a is not None else k for k, a in ops][:30], 'draws': len(tape), 'debug': debug})
         reqs.append(envs.env_request(desc, debug, ops, tape))
         metas.append((label, desc, ops, debug, outs, log))
+    # the outer environment over the same inner machine: inner and outer operations interleaved on one object stack (model: Gym.v)
+    from vt.suites.C20 import check_jobs
+    check_jobs(ctx, jobs[::2] if ctx.tier == 'quick' else jobs, ['io', 'io', 'o', 'oi'], length)
     answers = ctx.model(reqs)
     if answers is None:
         return
